@@ -415,6 +415,14 @@ class TopLevelVisitor(ast.NodeVisitor):
             >>>     print('want = {!r}'.format(want))
             >>>     assert got == want
         """
+        valnode = getattr(docnode, 'value', docnode)
+        if PLAT_IMPL == 'CPython' and getattr(valnode, 'end_lineno', None) is not None:
+            # Python 3.8+ records where the string expression starts and
+            # ends.  Guessing the start from the number of newlines in the
+            # value goes wrong when the literal shares a line with other
+            # code or holds escapes that evaluate to (or remove) newlines.
+            return valnode.lineno, valnode.end_lineno
+
         # lineno points to the last line of a string in CPython < 3.8
         if hasattr(docnode, 'end_lineno'):
             endpos = docnode.end_lineno - 1
